@@ -10,15 +10,16 @@ def l2Init : L2State := []
 def l2Lookup (ss : L2State) (sid : String) : Option St := (ss.find? (fun p => p.1 == sid)).map (·.2)
 def l2Set (ss : L2State) (sid : String) (s : St) : L2State := (sid, s) :: (ss.filter (fun p => p.1 != sid)).take 4
 
-def l2KindName (k : Nat) : String := if k = 0 then "d" else if k = 1 then "w" else if k = 2 then "s" else if k = 3 then "t" else "i"
-def l2Kind (t : String) : Option Nat := if t = "d" then some 0 else if t = "w" then some 1 else if t = "s" then some 2 else if t = "t" then some 3 else if t = "i" then some 4 else none
+def l2KindName (k : Nat) : String := if k = 0 then "d" else if k = 1 then "w" else if k = 2 then "s" else if k = 3 then "t" else if k = 4 then "i" else "x"
+def l2Kind (t : String) : Option Nat := if t = "d" then some 0 else if t = "w" then some 1 else if t = "s" then some 2 else if t = "t" then some 3 else if t = "i" then some 4 else if t = "x" then some 5 else none
 
 def l2Digest (s : St) : String :=
   let us := (List.range 3).map (fun u => let x := s.users u; s!"{u}:{x.long}:{x.short}:{x.mt}")
-  -- same order as the harness' BTreeMap<(u8, char, u8)>: kinds sorted by character d < i < s < t < w
-  let ds := (List.range 3).flatMap (fun u => [0, 4, 2, 3, 1].flatMap (fun k => (List.range 3).filterMap (fun i =>
+  -- same order as the harness' BTreeMap<(u8, char, u8)>: kinds sorted by character d < i < s < t < w < x
+  let ds := (List.range 3).flatMap (fun u => [0, 4, 2, 3, 1, 5].flatMap (fun k => (List.range 3).filterMap (fun i =>
     (s.acts u k i).map (fun (x : Act) => s!"{u}.{l2KindName k}.{i}:{x.state}:{x.escLong}:{x.escShort}:{x.escMt}:r{x.receiver}"))))
-  s!"now={s.now} users=[{",".intercalate us}] acts=[{",".intercalate ds}] vault={s.vaultLong}:{s.vaultShort} rec={s.recLong}:{s.recShort} supply={supply s}"
+  let ps := (List.range 3).map (fun u => if s.posOpen u then s!"{u}:{s.posSize u}" else s!"{u}:_")
+  s!"now={s.now} users=[{",".intercalate us}] acts=[{",".intercalate ds}] vault={s.vaultLong}:{s.vaultShort} rec={s.recLong}:{s.recShort} supply={supply s} pos=[{",".intercalate ps}] claim={s.claimLong}:{s.claimShort}"
 
 def l2Who (t : String) : Option Gmx.Life.Who :=
   if t = "k" then some .keeper else if t = "a" then some .admin
@@ -47,24 +48,33 @@ def l2Engine (ss : L2State) (args : List String) : L2State × String :=
     match l2Lookup ss sid, pNat age with
     | some s, some age => if age ≤ 100000 then l2Reply ss sid s (some (price s age)) else (ss, "bad-op")
     | _, _ => (ss, "bad-op")
+  | ["pricex", sid, age, p] =>
+    match l2Lookup ss sid, pNat age, pNat p with
+    | some s, some age, some p => if age ≤ 100000 && 1 ≤ p && p ≤ 100000 then l2Reply ss sid s (some (price s age)) else (ss, "bad-op")
+    | _, _, _ => (ss, "bad-op")
   | ["create", sid, u, k, i, a, b, fe] =>
     match l2Lookup ss sid, l2Id s!"{u}.{k}.{i}", allNat [a, b], fe.splitOn ":" with
     | some s, some (u, k, i), some [a, b], [f, el, rc] =>
       match pBool f, pNat el, pNat rc with
       | some f, some el, some rc =>
-        if el ≤ 50000000 && a < 2 ^ 64 && b < 2 ^ 64 && (k = 0 || k = 4 || b = 0) && (k != 4 || b ≤ 100000000) && rc < 3 then l2Reply ss sid s (create s u k i a b f el rc) else (ss, "bad-op")
+        if el ≤ 50000000 && a < 2 ^ 64 && b < 2 ^ 64 && (k = 0 || k = 4 || k = 5 || b = 0) && (k != 4 || b ≤ 100000000) && rc < 3 then
+          match create s u k i a b f el rc with
+          | some s' => (l2Set ss sid s', s!"ok | {l2Digest s'}")
+          | none => let s' := if k = 4 then prepPosition s u else s; (l2Set ss sid s', s!"err | {l2Digest s'}")
+        else (ss, "bad-op")
       | _, _, _ => (ss, "bad-op")
     | _, _, _, _ => (ss, "bad-op")
-  | ["exec", sid, who, id, fee, throw, fl, x, y] =>
-    match l2Lookup ss sid, l2Who who, l2Id id, allNat [fee, x, y], pBool throw, pNat fl with
-    | some s, some who, some (u, k, i), some [fee, x, y], some throw, some fl =>
-      if fee < 2 ^ 64 && x < 2 ^ 64 && y < 2 ^ 64 && (fl < 2 || (fl = 2 && k = 4)) then
-        match exec s who u k i fee throw (fl = 1) x y (fl = 2) with
+  | ["exec", sid, who, id, fee, throw, fl, x, y, c] =>
+    match l2Lookup ss sid, l2Who who, l2Id id, allNat [fee, x, y], pBool throw, pNat fl, allNat (c.splitOn ":") with
+    | some s, some who, some (u, k, i), some [fee, x, y], some throw, some fl, some [cl, cs, ch, pc] =>
+      if fee < 2 ^ 64 && x < 2 ^ 64 && y < 2 ^ 64 && cl < 2 ^ 64 && cs < 2 ^ 64 && ch < 2 ^ 64 && pc < 2
+          && (fl < 2 || (fl = 2 && k ≥ 4)) && (k = 5 || (cl = 0 && cs = 0 && ch = 0 && pc = 0)) then
+        match exec s who u k i fee throw (fl = 1) x y (fl = 2) cl cs ch (pc = 1) with
         | some (s', o, paid) =>
           (l2Set ss sid s', s!"ok {if o = Outcome.completed then "completed" else "cancelled"} fee={paid} | {l2Digest s'}")
         | none => (ss, s!"err | {l2Digest s}")
       else (ss, "bad-op")
-    | _, _, _, _, _, _ => (ss, "bad-op")
+    | _, _, _, _, _, _, _ => (ss, "bad-op")
   | ["close", sid, who, id] =>
     match l2Lookup ss sid, l2Who who, l2Id id with
     | some s, some who, some (u, k, i) => l2Reply ss sid s (close s who u k i)
